@@ -1,9 +1,10 @@
 CONSTANTS
   FlowSet = {"flows/a.yaml", "flows/b.yaml"}
-  Endpoints = {"configuration"}
+  Endpoints = {"configuration", "apply_flows"}
   Methods = {"PUT", "POST"}
   MaxNth = 6
   WithBadB64 = TRUE
+  GwOld = {"none", "g1"}
   AnchorFlows = {}
   Paths <- PathsMC
   Cat <- CatMC
